@@ -55,21 +55,19 @@ def pyOffsets (n : Nat) (js : List Nat) : List Nat :=
 def pyShuffle {α : Type} (x : List α) (js : List Nat) : List α :=
   (fy x.reverse (pyOffsets x.length js)).reverse
 
-/-- pop-and-move-last sampling without replacement of all elements -/
+/-- pop-and-move-last sampling without replacement (one element per draw; structural in the
+    draw list) -/
 def sbi {α : Type} : List α → List Nat → List α
-  | [], _ => []
-  | _ :: _, [] => []
-  | x :: xs, w :: ws =>
-    let l := x :: xs
+  | _, [] => []
+  | l, w :: ws =>
     match l[w]? with
     | none => []
     | some y =>
-      let last := l.getLast (by simp [l])
       let l' := l.dropLast
-      let l'' := if w < l'.length then l'.set w last else l'
+      let l'' := match l.getLast? with
+        | some last => if w < l'.length then l'.set w last else l'
+        | none => l'
       y :: sbi l'' ws
-termination_by l => l.length
-decreasing_by simp_all; split <;> simp
 
 /-- valid index vectors for `sbi` on n elements: `w_i < n - i` -/
 abbrev ValidW := ValidC
